@@ -3180,6 +3180,11 @@ class QuicConnection:
                         discarded.add(stream)
                         continue
 
+                    if stream.is_blocked:
+                        # The peer's stream limit does not allow this stream to
+                        # be opened yet, no frame may refer to it.
+                        continue
+
                     if stream.receiver.stop_pending:
                         # STOP_SENDING
                         self._write_stop_sending_frame(builder=builder, stream=stream)
@@ -3187,7 +3192,7 @@ class QuicConnection:
                     if stream.sender.reset_pending:
                         # RESET_STREAM
                         self._write_reset_stream_frame(builder=builder, stream=stream)
-                    elif not stream.is_blocked and not stream.sender.buffer_is_empty:
+                    elif not stream.sender.buffer_is_empty:
                         # STREAM
                         used = self._write_stream_frame(
                             builder=builder,
